@@ -508,3 +508,41 @@ Definition outcome_eqb (a b : option berr * tdir) : bool :=
    | Some e, Some e' => berr_eqb e e'
    | _, _ => false
    end) && tdir_set_eqb (snd a) (snd b).
+
+(* ------------------------------------------------------------------------------------------ *)
+(* executable versions of the premises of the C12 theorems (Proofs/BackupProofs.v shows they imply
+   the Prop versions); evaluated by the correspondence on the directories of the real engine.   *)
+(* ------------------------------------------------------------------------------------------ *)
+Fixpoint nodup_names (l : list fname) : bool :=
+  match l with
+  | [] => true
+  | x :: r => negb (existsb (fname_eqb x) r) && nodup_names r
+  end.
+
+Fixpoint sorted_lt (l : list N) : bool :=
+  match l with
+  | [] => true
+  | x :: r => match r with [] => true | y :: _ => (x <? y) && sorted_lt r end
+  end.
+
+Definition is_some {A} (o : option A) : bool := match o with Some _ => true | None => false end.
+
+Definition wf_sdirb (d : sdir) (m : manifest) : bool :=
+  nodup_names (map fst d)
+  && (match sget d FManifest with Some (CMan m', _) => manifest_eqb m' m | _ => false end)
+  && sorted_lt (m_segs m)
+  && forallb (fun s => is_some (sget d (FWal s))) (m_segs m)
+  && forallb (fun e => memN (fst e) (m_segs m)) (wal_entries d)
+  && (match m_snap m with Some s => is_some (sget d (FSnap s)) | None => true end).
+
+(* every segment the incremental would not select is unchanged since the parent's directory *)
+Definition evolvesb (dp : sdir) (pts : N) (pmax : option N) (d : sdir) : bool :=
+  forallb (fun e => incr_selected pts pmax e
+                    || match sget dp (FWal (fst e)) with
+                       | Some (c, _) => content_eqb c (fst (snd e))
+                       | None => false
+                       end) (wal_entries d).
+
+(* compact constructor used by the prune timelines of the correspondence (metadata only) *)
+Definition pbk (id : N) (parent : option N) (k : bkind) (ts : N) : backup :=
+  mkBackup id parent k ts [] true None None 0.
